@@ -7,6 +7,8 @@ import (
 	"fmt"
 	"io"
 
+	"github.com/gregoryv/mq"
+
 	"verif/mc/core"
 	"verif/mc/env"
 	"verif/mc/gen"
@@ -25,7 +27,7 @@ func init() {
 		Title: "ReadPacket consumes exactly one frame from the stream",
 		Level: "model_checking",
 		Rule: "explicit enumeration of operation histories on the real decoder: every sequence of length 1..2 over the whole frame alphabet (valid minimal+rich frames of all 15 types, short forms, remaining-length-0 frames of all 16 first-byte types, content-malformed frames) and every sequence of length 3 over a sub-alphabet (quick: 18 frames incl. a 5 000-byte frame; thorough: the whole alphabet), each followed by every tail in {none, 00, ff ff ff ff ff, first byte of a header, a whole further frame}, and each handed to ReadPacket through five io.Reader implementations (a counting reader, bufio.Reader with a 16-byte and a 4096-byte buffer, bytes.Reader, bytes.Buffer — a decoder may special-case what a reader can do). " +
-			"After each call: bytes drawn from the counting reader == 1+|remaining length field|+remaining length of that frame; result i equals the result of reading frame i alone (history and tail independence); with no tail the call after the last frame returns an error satisfying errors.Is(err, io.EOF). " +
+			"After each call: bytes drawn from the counting reader == 1+|remaining length field|+remaining length of that frame; result i equals the result of reading frame i alone (history and tail independence); every packet returned by an earlier call is observed again after the last call and must be unchanged (a frame's result depends on its own bytes only); with no tail the call after the last frame returns an error satisfying errors.Is(err, io.EOF). " +
 			"states = distinct (sequence prefix) stream positions visited, transitions = ReadPacket calls; distinct_nontrivial = distinct (sequence, tail) of length >= 2.",
 		Assumptions: []string{
 			"the readers are contiguous here (they hand over min(asked, available) bytes); fragmentation is C07's dimension",
@@ -85,10 +87,16 @@ func c06Exec(frames []CFrame, seq []int, tail int, alone []string, kind int) *co
 		return &core.Finding{Class: class + "/" + c06ReaderKinds[kind], Sig: map[string]string{"seq": names, "reader": c06ReaderKinds[kind]},
 			Detail: fmt.Sprintf("stream [%s] + tail % x through %s: %s", names, c06Tails[tail], c06ReaderKinds[kind], what)}
 	}
+	var kept []mq.Packet
+	var keptObs []string
+	var keptAt []int
 	for j, i := range seq {
 		before := st.used()
 		p, err, res := readPacket(r, stepBudget(len(frames[i].B)))
 		got := outcome(p, err, res)
+		if p != nil && err == nil {
+			kept, keptObs, keptAt = append(kept, p), append(keptObs, got), append(keptAt, j)
+		}
 		drawn := st.used() - before
 		if err != nil && p == nil && res.Panic == "" && !res.Budget && drawn <= c06HeaderLen(frames[i].B) && drawn < len(frames[i].B) {
 			// rejected while reading the fixed header (a stricter decoder may
@@ -102,6 +110,12 @@ func c06Exec(frames []CFrame, seq []int, tail int, alone []string, kind int) *co
 		}
 		if got != alone[i] {
 			return mk("history-dependent", fmt.Sprintf("call %d (frame %s) gave %q, reading the frame alone gives %q", j+1, frames[i].Name, clip(got, 150), clip(alone[i], 150)))
+		}
+	}
+	// packets returned earlier must not have been changed by later calls
+	for k, p := range kept {
+		if now := outcome(p, nil, callResult{}); now != keptObs[k] {
+			return mk("earlier-packet-changed", fmt.Sprintf("the packet returned by call %d (frame %s) changed while later frames were read: %q -> %q", keptAt[k]+1, frames[seq[keptAt[k]]].Name, clip(keptObs[k], 140), clip(now, 140)))
 		}
 	}
 	if tail == 0 {
@@ -137,7 +151,7 @@ func c06Alone(frames []CFrame) []string {
 // c06Sub is the sub-alphabet used for length-3 sequences in the quick tier.
 func c06Sub(frames []CFrame) []int {
 	want := map[string]bool{"CONNECT.min": true, "PUBLISH.rich": true, "PUBACK.rl2": true, "PUBREL.rl3": true, "SUBSCRIBE.min": true,
-		"SUBACK.min": true, "PINGREQ.min": true, "publish.5000B": true, "body2.type12": true, "DISCONNECT.rl0": true, "DISCONNECT.rl1": true, "AUTH.rich": true, "rl0.type0": true,
+		"SUBACK.min": true, "PINGREQ.min": true, "foreignprop.type4": true, "publish.5000B": true, "body2.type12": true, "DISCONNECT.rl0": true, "DISCONNECT.rl1": true, "AUTH.rich": true, "rl0.type0": true,
 		"rl0.type3": true, "bad.connack.unknownprop": true, "bad.puback.cut": true, "type0.body": true, "pingreq.nonminimal-rl": true}
 	var idx []int
 	for i, f := range frames {
